@@ -146,6 +146,9 @@ func cmdWorker(args []string) int {
 				res.HarnessErrors = append(res.HarnessErrors, fmt.Sprintf("run %d seed %d: %s", i, s, h))
 			}
 		}
+		for fp, n := range r.KnownSeen {
+			res.KnownSeen[fp] += n
+		}
 		for _, v := range r.Violations {
 			if v.Prop != baseProp(*prop) {
 				res.OtherProps[v.Prop]++
